@@ -1001,6 +1001,10 @@ func resolveCall(path string, call *ast.CallExpr, wantBool bool) *ast.BlockStmt 
 	}
 	args := []string{}
 	for _, a := range call.Args {
+		// `&wg`: a pointer to a local (methods are called on the pointer and on the variable alike)
+		if u, ok := a.(*ast.UnaryExpr); ok && u.Op == token.AND {
+			a = u.X
+		}
 		i, ok := a.(*ast.Ident)
 		if !ok {
 			return nil
@@ -1266,6 +1270,12 @@ func stage(fd *ast.FuncDecl) string {
 				continue
 			}
 		case *ast.AssignStmt:
+			// wg := new(sync.WaitGroup)  /  wg := &sync.WaitGroup{}
+			if x.Tok == token.DEFINE && len(x.Lhs) == 1 && len(x.Rhs) == 1 && src(x.Lhs[0]) == "wg" &&
+				(src(x.Rhs[0]) == "new(sync.WaitGroup)" || src(x.Rhs[0]) == "&sync.WaitGroup{}") {
+				hasWG = true
+				continue
+			}
 			if x.Tok == token.DEFINE && len(x.Lhs) == 1 && len(x.Rhs) == 1 {
 				nm := x.Lhs[0].(*ast.Ident).Name
 				if r, n, args, ok := callName(x.Rhs[0]); ok {
@@ -1358,6 +1368,21 @@ func stage(fd *ast.FuncDecl) string {
 				g, gok := x.Body.List[len(x.Body.List)-1].(*ast.GoStmt)
 				addOK := (len(x.Body.List) == 1 && addArg == "len("+fn.inName+")") ||
 					(len(x.Body.List) == 2 && src(x.Body.List[0]) == "wg.Add(1)" && addArg == "" && hasWG)
+				// go copyTo(ctx, wg, c, out): an unexported top-level worker; its channel parameter is the loop variable
+				if kok && vok && gok && k.Name == "_" && x.Tok == token.DEFINE && addOK && len(g.Call.Args) >= 2 {
+					uses := false
+					for _, a := range g.Call.Args {
+						if src(a) == v.Name {
+							uses = true
+						}
+					}
+					if uses {
+						if bd := resolveGoCall(currentFile, g.Call); bd != nil {
+							worker = &stWorker{body: bd, param: v.Name, workers: "perInput"}
+							continue
+						}
+					}
+				}
 				if kok && vok && gok && k.Name == "_" && x.Tok == token.DEFINE && addOK && len(g.Call.Args) == 1 && src(g.Call.Args[0]) == v.Name {
 					if h, ok := g.Call.Fun.(*ast.Ident); ok && closures[h.Name] != nil {
 						worker = closures[h.Name]
@@ -1871,10 +1896,41 @@ func catchFamily(f *ast.File) string {
 						ps = append(ps, n.Name+" "+src(p.Type))
 					}
 				}
-				if strings.Join(ps, ", ") != "ctx context.Context, err error, exx chan<- error" {
-					sfail(fd, "catch: unexpected signature (%s)", strings.Join(ps, ", "))
+				sig := strings.Join(ps, ", ")
+				if sig != "ctx context.Context, err error, exx chan<- error" && sig != "_ context.Context, err error, exx chan<- error" {
+					sfail(fd, "catch: unexpected signature (%s)", sig)
 				}
-				body := fn.block(fd.Body.List, 1, false)
+				stmts := fd.Body.List
+				// `return h(args…)` for an unexported bool helper of the same file: the helper's body, parameters renamed
+				if len(stmts) == 1 {
+					if r, ok := stmts[0].(*ast.ReturnStmt); ok && len(r.Results) == 1 {
+						if call, ok := r.Results[0].(*ast.CallExpr); ok {
+							if hb := resolveCall(currentFile, call, true); hb != nil {
+								stmts = hb.List
+							}
+						}
+					}
+				}
+				// `select { case exx <- err: return true; case <-ctx.Done(): return false }`  ==  the same select with an empty
+				// send arm, followed by `return true`
+				if len(stmts) == 1 {
+					if sel, ok := stmts[0].(*ast.SelectStmt); ok && len(sel.Body.List) == 2 {
+						n := 0
+						for _, cl := range sel.Body.List {
+							cc := cl.(*ast.CommClause)
+							if _, isSend := cc.Comm.(*ast.SendStmt); isSend && len(cc.Body) == 1 {
+								if r, ok := cc.Body[0].(*ast.ReturnStmt); ok && len(r.Results) == 1 && src(r.Results[0]) == "true" {
+									cc.Body = nil
+									n++
+								}
+							}
+						}
+						if n == 1 {
+							stmts = append(stmts, &ast.ReturnStmt{Results: []ast.Expr{&ast.Ident{Name: "true"}}})
+						}
+					}
+				}
+				body := fn.block(stmts, 1, false)
 				fmt.Fprintf(&sb, "def %s_catch (err : ε) (exx : Nat) : %s σ (β ⊕ ε) Bool := do\n%s\n\n", tn.Name, monadName, strings.Join(body, "\n"))
 			}
 		}()
@@ -1899,6 +1955,7 @@ func stagesFamily(files []string) string {
 	sb.WriteString(header(strings.Join(files, " ")))
 	sb.WriteString("import Golem.Model.StageDSL\nset_option linter.unusedVariables false\n")
 	fmt.Fprintf(&sb, "namespace Golem.Gen.%s\nopen Golem.Go Golem.Model.DSL\n\nvariable {σ α β ε : Type}\n\n", ns)
+	currentFile = files[0]
 	sb.WriteString(catchFamily(parse(files[0])))
 	f := parse(files[1])
 	currentFile = files[1]
